@@ -51,6 +51,19 @@ def all_hmat_small(maxlen):
 def run(ctx):
     rng = vlib.Rng(ctx.seed)
     th = ctx.thorough()
+    # the index arithmetic for ALL shapes (Apalache, symbolic); the stride-by-initiators variant must be refuted
+    import concurrent.futures as cf
+    with cf.ThreadPoolExecutor(max_workers=2) as ex:
+        common = ["--init=Init", "--next=Next", "--inv=Inv", "--length=0"]
+        a = ex.submit(vlib.apalache, ctx, "APA_Matrix.tla", ["--cinit=ConstOk"] + common, "ok")
+        b = ex.submit(vlib.apalache, ctx, "APA_Matrix.tla", ["--cinit=ConstBug"] + common, "bug")
+        (ra, ta), (rb, tb) = a.result(), b.result()
+    if ra == "error":
+        raise vlib.ToolError("Apalache refutes the matrix index theorem of the specification (APA_Matrix)")
+    if rb == "ok":
+        raise vlib.ToolError("APA_Matrix: the stride-by-initiators variant was not refuted -- the theorem is vacuous")
+    ctx.extra["apalache"] = {"module": "APA_Matrix.tla", "index_theorem": ra, "stride_bug_refuted": rb == "error", "wall_s": [ta, tb],
+                             "domain": "all shapes 1..65535 x 1..65535, all cells (symbolic)"}
     # SLIT: all assignment sequences over all cells of a 3x3 matrix (diagonal, mirrored, repeated), 2 values: MC_Tables
     progs = tc.mc_replays(ctx, ["SLIT"], 4 if th else 3, workers=8)
     progs += tc.mc_replays(ctx, ["HMAT"], 3 if th else 2, workers=6, name="mch")
